@@ -257,3 +257,54 @@ func VH_C07_case() {
 	vhRichReads("C07.case.state", db, cur)
 	vhRichSearch("C07.case.state", db, cur, "Q", "=")
 }
+
+// VH_C07_revisions: one batch holding two different values with the same
+// identifier (two revisions of one stored object).  Every member is checked,
+// not only the first occurrence of an identifier: the batch is refused iff
+// the later revision conflicts with another stored object; a refused batch
+// changes nothing (count 0), an accepted one leaves the later revision.
+func VH_C07_revisions() {
+	db, _ := vhOpenRich(vhCfgs[[]int{0, 1}[vChoice("cfg", 2)]])
+	s0, s1 := vhNewRich(0, "K"), vhNewRich(1, "K")
+	if db.InsertOrUpdate(s0) != nil || db.InsertOrUpdate(s1) != nil {
+		vAssume(false)
+	}
+	rows := []vhRichRow{{s0.UUID(), vhRichStored(s0)}, {s1.UUID(), vhRichStored(s1)}}
+	r1, r2 := *s0, *s0
+	r1.K, r1.P = vInt64("Ka"), "rev1"
+	r2.K, r2.P = vInt64("Kb"), "rev2"
+	extra := &vRich{K: vInt64("Kn"), Q: "brand-new", N: 99}
+	var n int
+	var err error
+	if vChoice("with_new", 2) == 1 {
+		n, err = db.InsertOrUpdateMany(extra, &r1, &r2)
+	} else {
+		n, err = db.InsertOrUpdateMany(&r1, &r2)
+		extra = nil
+	}
+	// applied in order: r1 then r2 replace s0; what must not collide in the end
+	reject := r2.K == rows[1].o.K
+	// r1 is an intermediate value of the same object: it collides with s1 only if it is kept, it is not
+	if extra != nil {
+		reject = vOr(reject, vOr(extra.K == rows[1].o.K, extra.K == r2.K))
+		// the new object also must not take the value s0 holds unless s0 gives it up
+		reject = vOr(reject, vAnd(extra.K == rows[0].o.K, r2.K == rows[0].o.K))
+	}
+	if err == nil && !reject {
+		want := 2
+		if extra != nil {
+			want = 3
+		}
+		vAssert("C07.rev.count_all", n == want)
+		got, gerr := db.GetByUUID(&vRich{}, s0.UUID())
+		vAssert("C07.rev.later_revision_wins", gerr == nil && got.(*vRich).K == r2.K && got.(*vRich).P == "rev2")
+		return
+	}
+	if err != nil {
+		vAssert("C07.rev.count0", n == 0)
+		vhRichReads("C07.rev.rejected_unchanged", db, rows)
+	}
+	// the oracle above is exact only for the final state; intermediate collisions
+	// (r1 with s1, the new object with r1) may legitimately refuse the batch too
+	vAssert("C07.rev.must_refuse", !reject || err != nil)
+}
